@@ -60,6 +60,16 @@ impl Model {
 
 /// run one case; `drain` = additionally drain with until_exhausted at the end
 fn run_case(rep: &mut Report, cap: usize, start: usize, pre: usize, len: u64, ops: &[Op], finish_with: u8, lean: bool) -> bool {
+    match vmon::catch(std::panic::AssertUnwindSafe(|| run_case_inner(rep, cap, start, pre, len, ops, finish_with, lean))) {
+        Ok(ok) => ok,
+        Err(m) => {
+            rep.violation("buffered|panic", format!("cap {} start {} prefill {} source_len {} ops {}: panicked: {}", cap, start, pre, len, enc(ops), m), format!("cap={};start={};pre={};len={};fin={};ops={}", cap, start, pre, len, finish_with, enc(ops)));
+            false
+        }
+    }
+}
+
+fn run_case_inner(rep: &mut Report, cap: usize, start: usize, pre: usize, len: u64, ops: &[Op], finish_with: u8, lean: bool) -> bool {
     let case = || format!("cap={};start={};pre={};len={};fin={};ops={}", cap, start, pre, len, finish_with, enc(ops));
     if lean {
         eprintln!("CASE {}", case());
@@ -231,7 +241,7 @@ fn main() {
     let (max_cap, seq_len, max_src) = match cli.stage.as_str() {
         "miri" => (3usize, cli.get_u64("seq", 2) as usize, 4u64),
         "asan" => (4, 3, 9),
-        _ => (5, cli.t(4, 5), 12),
+        _ => (5, cli.t(4, 6), 12),
     };
     // job = (cap, start, pre)
     let mut states = Vec::new();
@@ -267,7 +277,7 @@ fn main() {
     if cli.stage == "main" {
         rep.exhaustive(format!("capacities 1..={} x every (start, prefill length) x source lengths 0..={} x every sequence of {} operations from {{next, next_frames().take(j) for j in 0..=cap+1}}, finishing alternately with into_parts and until_exhausted", max_cap, max_src, seq_len));
         // random longer histories, larger capacities
-        let n_rand = cli.t(3_000u64, 200_000u64);
+        let n_rand = cli.t(3_000u64, 3_000_000u64);
         let reps = vmon::par_for(cli.threads, n_rand, 16, |_| Report::new("C14", "w"), |rep, i| {
             let mut rng = Rng::derive(cli.seed, &[14, i]);
             let cap = 1 + rng.usize_below(40);
